@@ -37,10 +37,10 @@ mut("html-match-ignores-alternatives", H, "first.tag_name in second.tag_names an
 mut("html-separator-after-children", H,
     """    if node.separator:
         last.children.append(text(node.separator))
-
+    
     for child in node.children:
         _collapsing_add(last.children, child)
-
+        
     return True""",
     """    for child in node.children:
         _collapsing_add(last.children, child)
@@ -275,7 +275,7 @@ mut("transforms-pre-order", T,
     """        if isinstance(element, documents.HasChildren):
             children = list(map(transform_element_and_children, element.children))
             element = element.copy(children=children)
-
+        
         return transform_element(element)""",
     """        element = transform_element(element)
         if isinstance(element, documents.HasChildren):
